@@ -22,10 +22,15 @@ from pv import core
 from pv import c23_gen
 
 TIERS = {
-    # maxlen: accepted transformations per history, by number of kernels
-    "quick": {"maxlen": {1: 3, 2: 2}, "design": "LFRicSched_quick.cfg",
-              "dump": "LFRicSched_dump.cfg"},
-    "thorough": {"maxlen": {1: 4, 2: 3}, "design": "LFRicSched_thorough.cfg",
+    # maxlen: accepted transformations per history, by (number of kernels,
+    # distributed memory).  Distributed memory only adds RedundantComp and
+    # halo exchanges between the loops: one step less in the quick tier.
+    "quick": {"maxlen": {(1, False): 3, (1, True): 2, (2, False): 2,
+                         (2, True): 2},
+              "design": "LFRicSched_quick.cfg", "dump": "LFRicSched_dump.cfg"},
+    "thorough": {"maxlen": {(1, False): 4, (1, True): 4, (2, False): 3,
+                            (2, True): 3},
+                 "design": "LFRicSched_thorough.cfg",
                  "dump": "LFRicSched_dump_thorough.cfg"},
 }
 INIT_OP = {"name": "Init", "tg": {"w": "", "k": 0, "k2": 0}, "opt": ""}
@@ -158,7 +163,7 @@ def initial_schedules(tier, cov, procs, only=None):
                                         "why": r.get("why")})
             continue
         nk = len(r["kerns"])
-        if nk not in TIERS[tier]["maxlen"]:
+        if (nk, r["member"][1]) not in TIERS[tier]["maxlen"]:
             cov["members_without_product"] += 1
             cov["member_notes"].append({"member": r["member"],
                                         "status": "outside the family",
@@ -169,7 +174,7 @@ def initial_schedules(tier, cov, procs, only=None):
             index[key] = len(inits)
             inits.append({"kerns": r["kerns"], "dm": r["member"][1],
                           "sched": r["sched"],
-                          "maxlen": TIERS[tier]["maxlen"][nk]})
+                          "maxlen": TIERS[tier]["maxlen"][(nk, r["member"][1])]})
             groups.append([])
         groups[index[key]].append(r)
     return inits, groups
